@@ -27,13 +27,13 @@ UNITS = {
 # --------------------------------------------------------------------------------------------- properties
 PROPS = {
     "C01": dict(units=["comm", "builder"], tagged_units=["builder"], kani=["w_poll_passthrough"], level="proof",
-                bounded_scenarios=[("c02_exchange_model", "83 exchanges through the real crate: 5 child behaviours (cat, dd bs=1000, dd bs=70000, tee to stderr, slow reader) x 8 input sizes (0 .. 300000), 18 size-limit runs (6 limits x 3 sizes, two streams), 23 byte patterns (valid text, multi-byte sequences cut short at the end, invalid bytes) through read_string against String::from_utf8_lossy, one resumed time-limited exchange; a watchdog turns a hang into a failure")]),
+                bounded_scenarios=[("c02_exchange_model", "90 exchanges through the real crate: 5 child behaviours (cat, dd bs=1000, dd bs=70000, tee to stderr, slow reader) x 8 input sizes (0 .. 300000), 18 size-limit runs (6 limits x 3 sizes, two streams), 23 byte patterns (valid text, multi-byte sequences cut short at the end, invalid bytes) through read_string against String::from_utf8_lossy, 6 size limits cutting multi-byte characters under read_string (each piece = the lossy decoding of a consecutive slice), one resumed time-limited exchange, one exchange whose reads are interrupted by a signal handler every 40 ms (captures of Ok and Err add up); a watchdog turns a hang into a failure")]),
     "C02": dict(units=["comm", "builder"], tagged_units=["builder"], kani=["w_poll_passthrough"], level="proof",
-                bounded_scenarios=[("c02_exchange_model", "83 exchanges through the real crate: 5 child behaviours (cat, dd bs=1000, dd bs=70000, tee to stderr, slow reader) x 8 input sizes (0 .. 300000), 18 size-limit runs (6 limits x 3 sizes, two streams), 23 byte patterns (valid text, multi-byte sequences cut short at the end, invalid bytes) through read_string against String::from_utf8_lossy, one resumed time-limited exchange; a watchdog turns a hang into a failure")]),
+                bounded_scenarios=[("c02_exchange_model", "90 exchanges through the real crate: 5 child behaviours (cat, dd bs=1000, dd bs=70000, tee to stderr, slow reader) x 8 input sizes (0 .. 300000), 18 size-limit runs (6 limits x 3 sizes, two streams), 23 byte patterns (valid text, multi-byte sequences cut short at the end, invalid bytes) through read_string against String::from_utf8_lossy, 6 size limits cutting multi-byte characters under read_string (each piece = the lossy decoding of a consecutive slice), one resumed time-limited exchange, one exchange whose reads are interrupted by a signal handler every 40 ms (captures of Ok and Err add up); a watchdog turns a hang into a failure")]),
     "C03": dict(units=["comm"], kani=["w_poll_passthrough"], level="proof",
-                bounded_scenarios=[("c02_exchange_model", "83 exchanges through the real crate: 5 child behaviours (cat, dd bs=1000, dd bs=70000, tee to stderr, slow reader) x 8 input sizes (0 .. 300000), 18 size-limit runs (6 limits x 3 sizes, two streams), 23 byte patterns (valid text, multi-byte sequences cut short at the end, invalid bytes) through read_string against String::from_utf8_lossy, one resumed time-limited exchange; a watchdog turns a hang into a failure")]),
+                bounded_scenarios=[("c02_exchange_model", "90 exchanges through the real crate: 5 child behaviours (cat, dd bs=1000, dd bs=70000, tee to stderr, slow reader) x 8 input sizes (0 .. 300000), 18 size-limit runs (6 limits x 3 sizes, two streams), 23 byte patterns (valid text, multi-byte sequences cut short at the end, invalid bytes) through read_string against String::from_utf8_lossy, 6 size limits cutting multi-byte characters under read_string (each piece = the lossy decoding of a consecutive slice), one resumed time-limited exchange, one exchange whose reads are interrupted by a signal handler every 40 ms (captures of Ok and Err add up); a watchdog turns a hang into a failure")]),
     "C04": dict(units=["comm"], kani=["w_poll_passthrough"], level="proof",
-                bounded_scenarios=[("c02_exchange_model", "83 exchanges through the real crate: 5 child behaviours (cat, dd bs=1000, dd bs=70000, tee to stderr, slow reader) x 8 input sizes (0 .. 300000), 18 size-limit runs (6 limits x 3 sizes, two streams), 23 byte patterns (valid text, multi-byte sequences cut short at the end, invalid bytes) through read_string against String::from_utf8_lossy, one resumed time-limited exchange; a watchdog turns a hang into a failure")]),
+                bounded_scenarios=[("c02_exchange_model", "90 exchanges through the real crate: 5 child behaviours (cat, dd bs=1000, dd bs=70000, tee to stderr, slow reader) x 8 input sizes (0 .. 300000), 18 size-limit runs (6 limits x 3 sizes, two streams), 23 byte patterns (valid text, multi-byte sequences cut short at the end, invalid bytes) through read_string against String::from_utf8_lossy, 6 size limits cutting multi-byte characters under read_string (each piece = the lossy decoding of a consecutive slice), one resumed time-limited exchange, one exchange whose reads are interrupted by a signal handler every 40 ms (captures of Ok and Err add up); a watchdog turns a hang into a failure")]),
     "C05": dict(units=["spawn"], kani=["w_make_standard_stream", "w_dup2", "w_pipe", "w_set_inheritable"], level="proof",
                 bounded_scenarios=[("c05_wiring", "all 125 settings of (stdin, stdout, stderr) over {inherit, pipe, file, shared file, merge} through the real crate: the child reports where its descriptors 0..2 point (/proc), compared with the parent's own streams, the inode of the pipe end exposed on the Popen, the file's path, the other stream; the 45 documented invalid settings must be refused without starting anything")]),
     "C06": dict(units=["spawn", "exec", "builder"], kani=["w_fork_ids", "w_os_to_cstring_b4", "w_chdir"], level="proof",
@@ -66,7 +66,7 @@ PROPS = {
     "C09": dict(units=["pstate"], kani=["w_decode_exit_status", "w_waitpid"], level="proof",
                 bounded_scenarios=[("c09_status_matrix", "298 children through the real crate: every exit code 0..255 through wait / wait_timeout / poll, 20 fatal signals with and without core dumps, a stopped child (never reported as finished), a child reaped behind the library's back; every later query in every order must repeat the status and pid() must be gone")]),
     "C10": dict(units=["pstate"], kani=["w_kill", "w_waitpid"], level="proof",
-                bounded_scenarios=[("c10_signals", "5 children under strace -e trace=kill: terminate / send_signal(USR1, HUP, INT) / kill reach a trapping child as exactly those signals and nothing else is signalled; after the end was observed by wait / poll / wait_timeout (exit, SIGKILL, reaped elsewhere) the three calls return Ok and make no system call")]),
+                bounded_scenarios=[("c10_signals", "6 children under strace -e trace=kill (one of them the leader of its own process group with a helper in the group: the signals go to the pid, not to the group): terminate / send_signal(USR1, HUP, INT) / kill reach a trapping child as exactly those signals and nothing else is signalled; after the end was observed by wait / poll / wait_timeout (exit, SIGKILL, reaped elsewhere) the three calls return Ok and make no system call")]),
     "C11": dict(units=["pstate"], kani=["w_waitpid"], level="proof",
                 bounded_scenarios=[("c11_status_checks", "one run under strace: 40 waits of 900 us, 10 of 2.5 ms, one of 250 ms and 20 polls on a live child; wait4 and nanosleep system calls are counted")]),
 }
